@@ -128,6 +128,7 @@ type relayCase struct {
 	N        int    `json:"n"`    // lines per phase
 	Size     int    `json:"size"` // bytes per line (without newline)
 	Pace     int    `json:"pace"` // sleep 1ms every Pace lines (0 = never)
+	ReconnMs int    `json:"reconn_ms"` // reconnect period (0 = 20 ms)
 }
 
 type relayPhase struct {
@@ -161,7 +162,7 @@ func runC06(raw json.RawMessage) (interface{}, error) {
 		return nil, err
 	}
 	mode := map[string]string{"healthy": "read", "slow_reader": "slow", "absent": "read", "absent_then_up": "read", "blackhole": "blackhole",
-		"close_midstream": "read", "close_under_traffic": "read", "two_dests": "blackhole", "spool_backlog_blackhole": "blackhole"}[c.Scenario]
+		"close_midstream": "read", "close_then_traffic": "read", "close_under_traffic": "read", "two_dests": "blackhole", "spool_backlog_blackhole": "blackhole"}[c.Scenario]
 	ep, err := newEndpoint(mode, false)
 	if err != nil {
 		return nil, err
@@ -185,7 +186,11 @@ func runC06(raw json.RawMessage) (interface{}, error) {
 	m, _ := matcher.New("", "", "", "", "", "")
 	rn := fresh("c06r")
 	mk := func(addr string) (*dest.Destination, error) {
-		return dest.New(rn, m, addr, spoolDir, spool, false, 5*time.Millisecond, 20*time.Millisecond, c.ConnBuf, c.IOBuf,
+		reconn := 20 * time.Millisecond
+		if c.ReconnMs > 0 {
+			reconn = time.Duration(c.ReconnMs) * time.Millisecond
+		}
+		return dest.New(rn, m, addr, spoolDir, spool, false, 5*time.Millisecond, reconn, c.ConnBuf, c.IOBuf,
 			10, 200*1024*1024, 1000, time.Hour, 10*time.Microsecond, 10*time.Microsecond)
 	}
 	d, err := mk(ep.addr)
@@ -228,7 +233,7 @@ func runC06(raw json.RawMessage) (interface{}, error) {
 		return nil, err
 	}
 	waitOnline := func(x *dest.Destination) bool {
-		return waitFor(3*time.Second, func() bool { return x.Snapshot().Online })
+		return waitFor(3*time.Second+time.Duration(c.ReconnMs)*time.Millisecond, func() bool { return x.Snapshot().Online })
 	}
 	if !absent {
 		if !waitOnline(d) {
@@ -353,6 +358,23 @@ func runC06(raw json.RawMessage) (interface{}, error) {
 		}
 		phase("down", c.N, d, ep, upSettled(d, ep, c.N))
 		time.Sleep(50 * time.Millisecond) // at least two failed reconnect attempts
+		if err := ep.up(); err != nil {
+			return nil, err
+		}
+		if !waitOnline(d) {
+			return nil, fmt.Errorf("destination did not reconnect")
+		}
+		phase("up", c.N, d, ep, upSettled(d, ep, c.N))
+	case "close_then_traffic":
+		// the endpoint closes while the relay is idle and the reconnect period is long; after the conn has seen the EOF, the very
+		// next pass through the relay loop must retire it (the line that causes that pass still goes to the dead conn: the
+		// transition, outside the steady-state clause), and every line handed off from then on is counted conn_down_no_spool
+		phase("up", c.N, d, ep, upSettled(d, ep, c.N))
+		ep.down()
+		time.Sleep(150 * time.Millisecond)
+		send(1) // the line that makes the relay loop notice
+		time.Sleep(30 * time.Millisecond)
+		phase("down", c.N, d, ep, upSettled(d, ep, c.N))
 		if err := ep.up(); err != nil {
 			return nil, err
 		}
